@@ -405,6 +405,64 @@ pub fn arb_sscenario(u: &mut Unstructured, p: &crate::props::sgen::SProfile) -> 
     Ok(SScenario { cfg, ops })
 }
 
+/// Raw-channel scenario (engine R, props/rawchan.rs) from fuzzer bytes: same op alphabet and weights as the proptest strategy.
+pub fn arb_raw(u: &mut Unstructured) -> arbitrary::Result<crate::props::rawchan::RawScenario> {
+    use crate::props::rawchan::{ROp, RawScenario};
+    let cap = u.int_in_range(1..=3usize)?;
+    let independent: bool = u.arbitrary()?;
+    let subscriber = if u.int_in_range(0..=4)? == 0 { 1u8 } else { 0u8 };
+    let n = u.int_in_range(1..=80usize)?;
+    let mut ops = vec![];
+    fn id(u: &mut Unstructured) -> arbitrary::Result<u8> {
+        Ok(if u.int_in_range(0..=8)? == 0 { u.int_in_range(4..=7)? } else { u.int_in_range(0..=3)? })
+    }
+    fn id_hit(u: &mut Unstructured) -> arbitrary::Result<u8> {
+        Ok(match u.int_in_range(0..=8)? {
+            0..=4 => u.int_in_range(8..=15)?,
+            5..=7 => u.int_in_range(0..=3)?,
+            _ => u.int_in_range(4..=7)?,
+        })
+    }
+    for _ in 0..n {
+        let op = match pick_weighted(u, &[20, 8, 22, 10, 14, 2, 5, 8, 4, 3])? {
+            0 => ROp::Poll { force: u.arbitrary()? },
+            1 => ROp::Drain,
+            2 => ROp::Req {
+                id_sel: id(u)?,
+                dl: match pick_weighted(u, &[6, 1, 3, 1])? {
+                    0 => Dl::InUs(u.int_in_range(1..=199_999)?),
+                    1 => Dl::PastUs(u.int_in_range(0..=4_999)?),
+                    2 => Dl::InSecs(u.int_in_range(1..=99_999)?),
+                    _ => Dl::InUs(0),
+                },
+            },
+            3 => ROp::Cancel { id_sel: id_hit(u)? },
+            4 => ROp::Respond { id_sel: id_hit(u)?, flush: u.arbitrary()?, fail: u.int_in_range(0..=7)? == 0 },
+            5 => ROp::Flush,
+            6 => ROp::Advance { us: arb_advance_us(u)?.max(1) },
+            7 => ROp::AdvanceTo {
+                sel: u.arbitrary()?,
+                delta_us: match u.int_in_range(0..=5)? {
+                    0 => -1000,
+                    1 => -1,
+                    2 => 2000,
+                    3 => 2001,
+                    4 => u.int_in_range(2000..=49_999)?,
+                    _ => u.int_in_range(-50_000..=-1)?,
+                },
+            },
+            8 => ROp::Budget { n: *u.choose(&[0u8, 1, 2, 255])? },
+            _ => ROp::PeerClose,
+        };
+        ops.push(op);
+    }
+    ops.push(ROp::PeerClose);
+    ops.push(ROp::Drain);
+    Ok(RawScenario { cap, independent, subscriber, ops })
+}
+
+const RAW_IDS: [&str; 5] = ["C04", "C06", "C08", "C10", "C11"];
+
 const SERVER_IDS: [&str; 8] = ["C04", "C06", "C08", "C09", "C10", "C11", "C12", "C14"];
 
 pub fn fuzz_sched_server(data: &[u8]) {
@@ -420,6 +478,15 @@ pub fn fuzz_sched_server(data: &[u8]) {
     let flag = data[1];
     let mut u = Unstructured::new(&data[2..]);
     use crate::props::sprops::*;
+    // one input in four (flag >= 192) is a raw-channel scenario for the properties that have a raw part
+    if flag >= 192 {
+        if let Some(rid) = RAW_IDS.iter().find(|x| **x == id) {
+            let Ok(sc) = arb_raw(&mut u) else { return };
+            let js = || format!("{} flag={flag}", serde_json::to_string(&sc).unwrap_or_default());
+            judge(rid, crate::props::rawchan::check_for(rid, &sc), js);
+            return;
+        }
+    }
     let prof = match id {
         "C04" => c04_profile(),
         "C06" => c06_profile(),
